@@ -45,9 +45,25 @@ caught = {
  "C20a": ("C20", "equal-request-not-cancelling"),
  "C20b": ("C20", "schedule-vs-pending, wrong-due-time"),
 }
+# round 2 (ids c, d): written by fresh sub-agents told what round 1 had already produced
+caught.update({
+ "C01c": ("C01", "consumer-stored-set / consumer-engine-set (vscrelay latebatch unit)"),
+ "C01d": ("C01", "consumer-stored-set, consumer-engine-set (batch unit)"),
+ "C02c": ("C02", "ineligible-member:...opted=false... (C03 also reports optin-provenance:launch)"),
+ "C02d": ("C02", "ineligible-member:...active=false, eligible-missing"),
+ "C08c": ("C08", "second-outstanding-report (ackloop unit, harness-side ledger of outstanding reports)"),
+ "C08d": ("C08", "slash-ack-wrong-address (ackloop unit)"),
+ "C11c": ("C11", "packet-sent-after-stop, stopped-consumer-still-updated (latechan unit)"),
+ "C11d": ("C11", "state-survives-deletion:prefix=23"),
+ "C16c": ("C16", "provider-share-not-sent, transfer-count (duplicate-denom unit)"),
+ "C16d": ("C16", "credit-accounting, distribution-account-vs-books (turnover event)"),
+ "C19c": ("C19", "halt:provider:BeginBlock error: cannot delete non-stopped chain (stop unit, both in-flight packets time out)"),
+ "C19d": ("C19", "swallowed-fault-changes-distribution:AllocateConsumerRewards (fault grid)"),
+})
 n = 0
-for d in sorted(glob.glob('/tmp/seeded/C??/[ab]')):
-    prop, var = d.split('/')[-2], d.split('/')[-1]
+dirs = [(d, d.split('/')[-2], d.split('/')[-1], '/tmp/wt-') for d in sorted(glob.glob('/tmp/seeded/C??/[ab]'))]
+dirs += [(d, d.split('/')[-2], {'a': 'c', 'b': 'd'}[d.split('/')[-1]], '/tmp/wt2-') for d in sorted(glob.glob('/tmp/seeded2/C??/[ab]'))]
+for d, prop, var, wtp in dirs:
     sid = prop + var
     log = os.path.join(d, 'confirm.log')
     if not os.path.exists(log):
@@ -60,6 +76,8 @@ for d in sorted(glob.glob('/tmp/seeded/C??/[ab]')):
     os.makedirs(dst, exist_ok=True)
     shutil.copy(os.path.join(d, 'patch.diff'), dst)
     shutil.copy(os.path.join(d, 'demo_test.go'), os.path.join(dst, 'demo_test.go'))
+    if sid not in caught:
+        print("no catching check recorded for", sid); continue
     chk, keys = caught[sid]
     meta = {
       "id": sid, "property": prop,
@@ -67,7 +85,7 @@ for d in sorted(glob.glob('/tmp/seeded/C??/[ab]')):
       "demonstration": {"file": "demo_test.go (copy into the package directory)", "package_dir": m.get("demo_pkg_dir"),
                         "run": next((l.split('=',1)[1] for l in lines if l.startswith('demo cmd=')), None)},
       "written_by": "independent sub-agent given only the property text and a scratch worktree",
-      "confirmed_by_me": {"how": "tools/confirm_seed.sh in a scratch worktree of /repo HEAD (/tmp/wt-%s): demonstration without the change, git apply, go build ./..., demonstration with the change, go test ./x/... ./app/..., go test ./tests/integration/..." % prop,
+      "confirmed_by_me": {"how": "tools/confirm_seed.sh in a scratch worktree of /repo HEAD (%s%s): demonstration without the change, git apply, go build ./..., demonstration with the change, go test ./x/... ./app/..., go test ./tests/integration/..." % (wtp, prop),
                           "log": lines},
       "caught_by_check": chk, "violation_keys": keys,
       "how_to_rerun": f"git -C /repo apply /verif/seeded/{sid}/patch.diff && (cd /verif && ./check {chk or prop} quick); git -C /repo checkout -- .",
